@@ -312,6 +312,17 @@ class RealRun(Harness):
         return label
 
 
+def reader_exits():
+    """does the packet reader (still) terminate the process itself?  (AST of the current source)"""
+    import ast, os
+    from vf import harness as H
+    tree = ast.parse(open(os.path.join(H.SRC, 'ssh_audit', 'ssh_socket.py')).read())
+    for fn in ast.walk(tree):
+        if isinstance(fn, ast.FunctionDef) and fn.name == 'read_packet':
+            return any(isinstance(n, ast.Call) and ast.unparse(n.func) == 'sys.exit' for n in ast.walk(fn))
+    return True
+
+
 def tasks(tier):
     q = tier == 'quick'
     T = []
@@ -325,6 +336,9 @@ def tasks(tier):
             for json in (False, True):
                 T.append(Aggregate(n, order, json))
     for e in ESCAPES:
+        # SystemExit belongs to the escape set of audit() in target-list mode only while a reachable sys.exit() exists (the packet reader's)
+        if e.startswith('SystemExit') and not reader_exits():
+            continue
         T.append(Containment(e))
     for bad in RealRun.BAD:
         for pos in (0, 1):
